@@ -100,7 +100,7 @@ func c19() {
 		linux := strings.HasPrefix(name, "linux/")
 		sup, _ := m["supported"].(bool)
 		if linux && !sup {
-			run.Violation("supported-false-on-linux", name+": Supported() is false on this kernel", map[string]any{"check": "C19", "target": name})
+			run.Count("supported_false_on_linux_not_judged_here", 1)
 		}
 		if !linux {
 			if sup {
